@@ -43,6 +43,14 @@ def _cap_writes(s):
     return [w for w in s.writes if w[0] == 'this.capacity_']
 
 
+def _cap_delta(s, roles=None):
+    """change of capacity_ along the path as a linear form (None if capacity_ was not written): the spelling of the update
+    (--x, x -= 1, x = x - 1) does not matter"""
+    if 'this.capacity_' not in s.fields:
+        return None
+    return linear.sub(linear.lin(s.fields['this.capacity_'], roles or {}), {'this.capacity_': 1})
+
+
 def check_unlink(run, db):
     n = 0
     for ct in LISTS:
@@ -60,8 +68,8 @@ def check_unlink(run, db):
                 if s.end != 'return' or s.ret in (None, 'null'):
                     continue
                 cw = _cap_writes(s)
-                if len(cw) != 1 or cw[0][1] not in ('--', '(this.capacity_ - 1)'):
-                    probs.append('capacity_ is not lowered by exactly one (writes: %s)' % [w[1] for w in cw])
+                if len(cw) != 1 or _cap_delta(s) != {'': -1}:
+                    probs.append('capacity_ is not lowered by exactly one (change: %s)' % (linear.fmt(_cap_delta(s)) if _cap_delta(s) is not None else 'none'))
                 if not _links_rewritten(s):
                     probs.append('the returned node is not unlinked')
             _emit(run, 'R-UNLINK', f, db, probs, site('allocate()'), 'one node unlinked, capacity_ - 1')
@@ -84,13 +92,14 @@ def check_unlink(run, db):
                 if len(cw) != 1:
                     probs.append('capacity_ written %d times on an array path' % len(cw))
                     continue
-                amount = cw[0][1]
-                # amount must be the size (node count) of the interval whose first node is returned
-                m = re.search(r'(\w[\w:.$#()\[\],& ]*?)\.size\(this\.node_size_\)', amount)
+                # the amount must be the size (node count) of the interval whose first node is returned
+                d = _cap_delta(s) or {}
+                atoms = [a for a in d if a]
+                m = re.match(r'^(.+)\.size\(this\.node_size_\)$', atoms[0]) if len(atoms) == 1 and d.get(atoms[0]) == -1 and not d.get('') else None
                 if not m:
-                    probs.append('capacity_ is lowered by %s, not by the node count of the found interval' % amount[:80])
+                    probs.append('capacity_ changes by [%s], not by minus the node count of the found interval' % linear.fmt(d)[:80])
                     continue
-                itv = m.group(1).split('- ')[-1].strip('( ')
+                itv = m.group(1)
                 if s.ret is None or not (itv + '.first') in s.ret:
                     probs.append('returns %s but counts the interval %s' % (s.ret, itv))
             if not saw:
@@ -105,8 +114,8 @@ def check_unlink(run, db):
                 if s.end != 'return':
                     continue
                 cw = _cap_writes(s)
-                if len(cw) != 1 or cw[0][1] not in ('++', '(1 + this.capacity_)', '(this.capacity_ + 1)'):
-                    probs.append('capacity_ is not raised by exactly one (writes: %s)' % [w[1] for w in cw])
+                if len(cw) != 1 or _cap_delta(s) != {'': 1}:
+                    probs.append('capacity_ is not raised by exactly one (change: %s)' % (linear.fmt(_cap_delta(s)) if _cap_delta(s) is not None else 'none'))
                 if not _links_rewritten(s):
                     probs.append('the node is not linked')
             _emit(run, 'R-UNLINK', f, db, probs, site('deallocate(ptr)'), 'node linked, capacity_ + 1')
@@ -122,11 +131,9 @@ def check_unlink(run, db):
                 if len(cw) != 1:
                     probs.append('capacity_ written %d times' % len(cw))
                     continue
-                amt = cw[0][1]
-                m = re.match(r'^\((.+) \+ this\.capacity_\)$', amt) or re.match(r'^\(this\.capacity_ \+ (.+)\)$', amt)
-                cnt = m.group(1) if m else amt
-                if cnt != '($size / this.node_size_)':
-                    probs.append('capacity_ grows by %s, the nodes linked are size / node_size_' % cnt)
+                d = _cap_delta(s, {0: 'mem', 1: 'size'})
+                if d != {'($size / this.node_size_)': 1}:
+                    probs.append('capacity_ grows by [%s], the nodes linked are size / node_size_' % linear.fmt(d or {}))
                 if not _links_rewritten(s):
                     probs.append('no links written')
             # the linking loop / helper runs over the same count
